@@ -1,7 +1,7 @@
 """C09 Posterior summaries are the weighted statistics of the stored samples."""
 import ast
 
-from sa.helpers import (validated, unlicensed, mkflow, spec, code, one, calls, bind_call, param_env,
+from sa.helpers import (guard_is, same_cond, validated, unlicensed, mkflow, spec, code, one, calls, bind_call, param_env,
                         fmt, atom_of, unparse, walk_no_nested, dict_items)
 from sa.index import AnalysisError
 from sa.algebra import RF, Slice
@@ -215,7 +215,7 @@ def derived(ix, R):
 
     def lic_d(g):
         # the only shortcut: nothing to do when there are no derived parameters
-        return validated(g) or (g.early and g.exit == {'return'} and g.rf is not None and fl.tab.equal(g.rf, nod))
+        return validated(g) or (g.early and g.exit == {'return'} and guard_is(fl, g, nod, False))
     dst = [e for e in fl.of('assign') if lp in e.loops and dict_items(fl, e.value) is not None]
     d = dict_items(fl, one(dst, 'derived dictionary').value)
     trace = qev.args[0]
@@ -481,14 +481,14 @@ def generate_solution(ix, R):
         else:
             c0 = cd[0]
             lic = spec(fl, 'len(self.derived_names) > 0')
-            bad = [g for g in c0.guards if not (g.positive and fl.tab.equal(g.rf, lic))]
+            bad = [g for g in c0.guards if not guard_is(fl, g, lic, True)]
             it2 = fl.tab.atom('elem', (c0.loops[0].iter_rf[0], c0.loops[0].index))
             if bad or not c0.args or not fl.tab.equal(c0.args[0], fl.tab.atom('idx', (it2, fl.tab.const(0)))):
                 why.append('compute_derived_trace(%s) under %s' % ([fmt(fl, a) for a in c0.args], [g.text() for g in c0.guards]))
             ups = [e for e in calls(fl, 'update') if e.loops == c0.loops and 'derived_params' in unparse(e.node.func)]
             res = fl.tab.atom('call', tuple(c0.args), extra=('fn:self.compute_derived_trace',))
             if len(ups) != 1 or not fl.tab.equal(ups[0].args[0], res) or [
-                    g for g in ups[0].guards if not ((g.early and g.exit == {'continue'}) or (g.positive and fl.tab.equal(g.rf, lic)))]:
+                    g for g in ups[0].guards if not ((g.early and g.exit == {'continue'}) or guard_is(fl, g, lic, True))]:
                 why.append('the derived summaries are not merged into derived_params of the same solution')
         R.check('5.store', 'ARG', site,
                 'every solution: extras copied, dictionary stored under solution<id> and returned; with derived parameters, '
@@ -558,6 +558,8 @@ MUTANTS = [
     ('derived-skip', OP, "            for p, v in zip(self.derived_names, self.derived_values):\n                derived_param[p][0].append(v)", "            for p, v in zip(self.derived_names, self.derived_values):\n                if v > 0:\n                    derived_param[p][0].append(v)", '6.trace'),
 ]
 EQUIVALENTS = [
+    ('derived-empty-test', OP, 'if len(self.derived_names) == 0:\n            return', 'if not self.derived_names:\n            return'),
+    ('derived-hoist-cond', OP, 'if len(self.derived_names) == 0:\n            return', 'nothing_to_do = len(self.derived_names) == 0\n        if nothing_to_do:\n            return'),
     ('nestle-reorder', NE, "param['sigma_p'] = q_84 - q_50", "param['sigma_p'] = -q_50 + q_84"),
     ('quantile-cumsum', UU, 'cdf = np.add.accumulate(weights[idx])', 'cdf = np.cumsum(weights[idx])'),
 ]
